@@ -299,4 +299,68 @@ theorem formLoopN_unl' {m : Option Nat} (cs : List (Option Bytes)) : ∀ (d : De
               · left; exact h'
               · right; exact ⟨h', by rw [hn]⟩
 
+/-! ### the guards are exact -/
+
+theorem fieldSizeStep_exact (m sz n : Nat) :
+    (fieldSizeStep (some m) (some sz) n = .error "RequestEntityTooLarge" ↔ sz + n > m) ∧
+    (fieldSizeStep (some m) (some sz) n = .ok (some (sz + n)) ↔ sz + n ≤ m) := by
+  unfold fieldSizeStep
+  by_cases h : sz + n > m
+  · simp [h]
+  · simp [h]; omega
+
+/-- the part counter refuses exactly the (max_parts + 1)-th part -/
+theorem step_part_exact {d : Decoder} {k : Nat} {ev : Event} {d' : Decoder} (hk : d.maxParts = some k)
+    (hfree : step { d with maxParts := none } = .ok (ev, d')) (hp : isPart ev = true) :
+    (step d = .error "RequestEntityTooLarge" ↔ d.partsDecoded + 1 > k) ∧
+    (step d = .ok (ev, { d' with maxParts := some k }) ↔ d.partsDecoded + 1 ≤ k) := by
+  rcases d with ⟨bnd, buf, st, cpl, sp, pd, mm, mp⟩
+  simp only at hk
+  subst hk
+  cases st with
+  | preamble =>
+    simp only [step] at hfree
+    split at hfree <;> (simp at hfree; rcases hfree with ⟨rfl, _⟩; simp [isPart] at hp)
+  | dataStart =>
+    simp only [step] at hfree
+    have := (stepData_ok hfree).2.2.2.1
+    rw [hp] at this; cases this
+  | data =>
+    simp only [step] at hfree
+    have := (stepData_ok hfree).2.2.2.1
+    rw [hp] at this; cases this
+  | epilogue =>
+    simp only [step] at hfree
+    split at hfree <;> (simp at hfree; rcases hfree with ⟨rfl, _⟩; simp [isPart] at hp)
+  | complete =>
+    simp [step] at hfree; rcases hfree with ⟨rfl, _⟩; simp [isPart] at hp
+  | part =>
+    simp only [step] at hfree ⊢
+    cases hsb : searchBlankFrom sp buf with
+    | none => rw [hsb] at hfree; simp at hfree; rcases hfree with ⟨rfl, _⟩; simp [isPart] at hp
+    | some r =>
+      rcases r with ⟨s, e⟩
+      rw [hsb] at hfree
+      simp only at hfree ⊢
+      cases hph : parseHeaders (buf.take s) with
+      | error er => rw [hph] at hfree; simp at hfree
+      | ok headers =>
+        rw [hph] at hfree
+        simp only at hfree ⊢
+        cases hcd : headerGet "content-disposition".toList headers with
+        | none => rw [hcd] at hfree; simp at hfree
+        | some cd =>
+          rw [hcd] at hfree
+          simp only at hfree ⊢
+          cases hpo : FormOptions.parseOptionsHeader cd with
+          | error er => rw [hpo] at hfree; simp at hfree
+          | ok r =>
+            rcases r with ⟨v, extra⟩
+            rw [hpo] at hfree
+            simp only at hfree ⊢
+            simp only [Except.ok.injEq, Prod.mk.injEq] at hfree
+            rcases hfree with ⟨rfl, rfl⟩
+            by_cases h : pd + 1 > k
+            · simp [h]
+            · simp [h]; omega
 end Wz.Multipart
